@@ -225,11 +225,15 @@ def check_C08(rep, prog, tier):
 
 
 def check_C05(rep, prog, tier):
+    rep.level = 'fault_enumeration'
+    gc_obligation(rep, prog, tier, tier_deadline(tier, 420, 2700), 'C05')
+
+
+def gc_obligation(rep, prog, tier, dl, prop):
+    """delete_bands / gc over symbolic archives (C05; also the 'only an explicit delete or gc removes files, and then only ...' clause of C07)."""
     from .harness import gc as G
     import json
-    dl = tier_deadline(tier, 420, 2700)
-    rep.level = 'fault_enumeration'
-    rep.bounds = {'archives': G.specs(tier), 'delete_sets': 'none (pure gc), each single band, all bands (in ascending and in descending order)',
+    rep.bounds['gc' if prop != 'C05' else 'delete_bands'] = {'archives': G.specs(tier), 'delete_sets': 'none (pure gc), each single band, all bands (in ascending and in descending order)',
                   'dry_run': [False, True], 'break_lock': 'both when GC_LOCK is present',
                   'crash_points': 'stop before every storage step k of delete_bands (k chosen by the solver)',
                   'faults': 'every single read/list/metadata step k failing with each of NotFound/Other/PermissionDenied/AlreadyExists',
@@ -264,7 +268,7 @@ def check_C05(rep, prog, tier):
             idx, verb, path, what = b['fired']
             occ = sum(1 for (i, v, p) in b.get('log', []) if v == verb and p == path and i < idx)
             sc['fired'] = [idx, verb, path, what, occ]
-        out, path_ = runner.replay(sc, 'C05_gc')
+        out, path_ = runner.replay(sc, prop + '_gc')
         if b.get('kind') == 'panic':
             reproduced = bool(out.get('panic'))
             what_ = 'delete_bands panics: %s (fault %s)' % (b.get('msg'), sc.get('fired'))
@@ -280,7 +284,7 @@ def check_C05(rep, prog, tier):
         for smp in [x for x in tot['samples'] if x.get('mode') == 'none' and x.get('log')][:4]:
             sc = {'kind': 'gc', 'spec': smp['spec'], 'delete': smp['delete'], 'dry_run': smp['dry_run'], 'break_lock': smp.get('break_lock', False),
                   'concrete': smp.get('concrete')}
-            out, path_ = runner.replay(sc, 'C05_conformance')
+            out, path_ = runner.replay(sc, prop + '_conformance')
             model_ops = normalize_trace([(v, p) for (i, v, p) in smp['log']])
             native_ops = normalize_trace([(o[0], o[1]) for o in out.get('ops', [])])
             # deletion order of blocks follows hash order, which differs between model names and real hashes: compare as multisets there
@@ -328,6 +332,8 @@ def check_C03(rep, prog, tier):
                   'crash_points': 'before every storage step k of the backup, and inside every write (empty file left); k solver-chosen',
                   'follow_up': 'after each crash: list every version with the real Stitch, run the backup again, check it'}
     rep.assumptions += BC.COMMON_ASSUMPTIONS + ['storage operations are atomic except that a write may leave an empty file']
+    # "every version lists per the stitching rule": also under a subtree selection (the obligation C08 and C12 run)
+    subtree_listing(rep, prog, tier, tier_deadline(tier, 240, 1200))
     BC.run_cases(rep, prog, cases, dl, 'C03', 'a backup killed at any storage step leaves a consistent, listable, resumable archive',
                  require=[r'^stop:write:head', r'^stop:write:hunk', r'^stop:write:block', r'^stop:write:tail', r'^stop:create_dir:', r'^empty_stop:write:hunk',
                           r'^empty_stop:write:block', r'^empty_stop:write:tail', r'^empty_stop:write:head', r'band with several hunks', r'block shared by several files', r'file split over several blocks', r'entry refers to a block stored earlier'])
@@ -445,6 +451,9 @@ def check_C07(rep, prog, tier):
     band_ids(rep, prog)
     local_write(rep, prog, dl)
     racing_backups(rep, prog, tier, dl)
+    # "only an explicit delete or gc removes files, and then only the requested versions' directories, unreferenced blocks
+    # and its own lock file": the delete_bands obligation of C05 (quick shapes) also runs here
+    gc_obligation(rep, prog, 'quick', dl, 'C07')
 
 
 def racing_backups(rep, prog, tier, dl):
@@ -465,10 +474,10 @@ def racing_backups(rep, prog, tier, dl):
             rep.violation('race2:panic', 'racing backups panic: %s' % b['msg'], '', False)
             continue
         m = b.get('model') or {}
-        s0, sx, sy = m.get('size_0', 10), m.get('size_x', 11), m.get('size_y', 12)
+        s0, sx, sy, ss = m.get('size_0', 10), m.get('size_x', 11), m.get('size_y', 12), m.get('size_s', 13)
         f = lambda p, n, c, t: {'path': p, 'kind': 'File', 'content_len': n, 'content_class': c, 'mtime': [t, 0], 'mode': 0o644}
-        sc = {'kind': 'race', 'first_tree': [f('/a', s0, 1, 10)], 'second_tree': [f('/a', s0, 1, 10), f('/x', sx, 5, 11)],
-              'third_tree': [f('/a', s0, 1, 10), f('/y', sy, 6, 12)], 'schedule': [a for a, v, p in b['schedule']],
+        sc = {'kind': 'race', 'first_tree': [f('/a', s0, 1, 10)], 'second_tree': [f('/a', s0, 1, 10), f('/s', ss, 8, 13), f('/x', sx, 5, 11)],
+              'third_tree': [f('/a', s0, 1, 10), f('/s', ss, 8, 13), f('/y', sy, 6, 12)], 'schedule': [a for a, v, p in b['schedule']],
               'mirsym': {'key': b['key'], 'results': b['results'], 'problems': b['problems']}}
         out, path = runner.replay(sc, 'C07_race2')
         vers = [v for v in (out.get('versions') or []) if v.get('band') != 'b0000']
@@ -1053,10 +1062,17 @@ def _decoded_native(b):
         U64 = (1 << 64) - 1
         ent['addr_raw'] = {'present': bool(m.get('wblock_present', True)), 'class': 5, 'block_len': 10,
                            'start': min(max(int(m.get('wstart', 0)), 0), U64), 'len': min(max(int(m.get('wlen', 0)), 0), U64)}
+        if e.get('naddr') == 2:
+            ent['addr_raw']['second'] = {'start': min(max(int(m.get('wstart2', 0)), 0), U64), 'len': min(max(int(m.get('wlen2', 0)), 0), U64)}
     sc = {'kind': 'restore_raw', 'restore_band': 0, 'raw_entries': True,
           'bands': [{'band': 0, 'closed': True, 'band_format_version': b.get('version', '0.6.3'), 'entries': [
               {'path': '/', 'kind': 'Dir', 'mode': 0o755, 'mtime': [1, 0]}, ent,
               {'path': '/n', 'kind': 'File', 'size': 10, 'class': 5, 'mode': 0o644, 'mtime': [3, 0]}]}]}
+    if b.get('op') == 'backup':
+        # the source tree of the decoded-layer backup obligation (harness/damage.py make_decoded)
+        sc['backup_after'] = [{'path': '/', 'kind': 'Dir', 'mode': 0o755, 'mtime': [1, 0]},
+                              {'path': '/m', 'kind': 'File', 'size': 4, 'class': 9, 'mode': 0o644, 'mtime': [50, 0]},
+                              {'path': '/n', 'kind': 'File', 'size': 10, 'class': 5, 'mode': 0o644, 'mtime': [3, 0]}]
     return sc, (lambda out: bool(out.get('panic')) if b['kind'] == 'panic' else True)
 
 
